@@ -110,8 +110,16 @@ pub fn dzmmap(
     annotation: &MmapAnnotation<'_>,
 ) -> MmapResult<Address> {
     // fault injection: the simulator may make this mmap call fail with ENOMEM
+    // (only where mmtk-core handles the failure -- heap spaces, side metadata and the component
+    // simulation's own mapper; other callers treat a failing mmap as an assertion by design)
     #[cfg(mmtk_verif)]
-    if crate::util::verif::rt::fault(crate::util::verif::rt::fault::MMAP, size) {
+    if matches!(
+        annotation,
+        MmapAnnotation::Space { .. }
+            | MmapAnnotation::SideMeta { .. }
+            | MmapAnnotation::Misc { name: "verif" }
+    ) && crate::util::verif::rt::fault(crate::util::verif::rt::fault::MMAP, size)
+    {
         return Err(MmapError::new(
             start,
             size,
